@@ -67,6 +67,20 @@ func init() {
 				HangIsViolation:  true,
 			},
 			{
+				Name:   "bulk",
+				Bubble: true,
+				NumRuns: func(c *Ctx) int64 {
+					if c.Tier == "thorough" {
+						return 20000
+					}
+					return 300
+				},
+				Plan:             func(c *Ctx, run int64) *Plan { return planBulk(c, run, "C14", true) },
+				Exec:             execBulk,
+				CrashIsViolation: true,
+				HangIsViolation:  true,
+			},
+			{
 				Name:             "amplify",
 				Bubble:           true,
 				NumRuns:          func(c *Ctx) int64 { return 14 },
